@@ -13,6 +13,9 @@ Python function ↔ definition here (all over exact rationals `Rat`):
 * `fit(tolerance=, check_convergence_every=)`: the convergence test, `break`, `training_iter`,
   `tolerance_reached`                                         ↔ `Stop`, `normLt`, `converged`, `checkAt`, `stopNow`,
                                                                 `loopFrom`, `emRun`, `fitRun`, `Run`
+* one `HyMMSBM` instance across calls: its attributes, `fit` on an object that earlier calls have
+  left in some state, a session of calls, queries on the object   ↔ `Obj`, `newObj`, `fitObj`, `FitCall`, `callFit`,
+                                                                `runSession`, `poisObj`, `edgeSumObj`
 
 Arrays are total index functions (`Vec = Nat → Rat`, `Mat = Nat → Nat → Rat`) together with their
 dimensions; numpy's `@`, `*`, `.sum` become the index sums `sumTo`.  A hyperedge is the list of its
@@ -293,6 +296,82 @@ def fit (d : Data) (uSup wSup : Option (List (List Rat))) (Dsup : Option Nat)
     if stopOk stop then
       some (D, finish d uSup.isSome wSup.isSome (C (dims 2 D)) sqrtC (fitRun d uSup wSup u0 w0 ru rw stop n).p)
     else none
+
+/-! ## one long-lived model object: several calls of `fit`, queries in between
+
+Every definition above is a pure function of its arguments: a query (`poisson`, `expDegNode`, `expDegAvg`,
+`expDimSeq`, `C`, ..) reads nothing but the parameter arrays it is given and its own argument.  What a
+`HyMMSBM` instance carries from one call to the next is written down here: the attributes `u`, `w`
+(`None` until supplied or first initialised), `max_hye_size`, and the training attributes that `fit` writes.
+There is no other state (no cache of hyperedge sums, of the incidence matrix, of the data). -/
+
+/-- the attributes of a `HyMMSBM` instance that its methods read or write -/
+structure Obj where
+  u : Option (List (List Rat))
+  w : Option (List (List Rat))
+  /-- `max_hye_size` -/
+  D : Option Nat
+  /-- `self.tolerance` (the argument of the last call of `fit`) -/
+  tolerance : Option Rat := none
+  trained : Bool := false
+  /-- `training_iter` -/
+  it : Option Nat := none
+  /-- `tolerance_reached` -/
+  reached : Bool := false
+
+/-- `HyMMSBM(u=uSup, w=wSup, max_hye_size=Dsup, ..)` -/
+def newObj (uSup wSup : Option (List (List Rat))) (Dsup : Option Nat) : Obj := { u := uSup, w := wSup, D := Dsup }
+
+/-- one call `obj.fit(data, n_iter = n, tolerance, check_convergence_every)` on an object in state `o`, in the
+order of the code: `self.tolerance = tolerance; self.tolerance_reached = False`; a parameter that is `None` is
+drawn (`u0`, `w0`; one that is set - supplied at construction OR left by an earlier call - counts as fixed); the
+size check (`ValueError`: the draws stay stored); the loop (`ZeroDivisionError` of `it % 0` in iteration 0, after
+its updates: they stay stored, like the inferred `max_hye_size`); the division; `trained`, `training_iter`.
+Result: the object after the call and whether the call returned (`false` = it raised).  `n ≥ 1`. -/
+def fitObj (o : Obj) (d : Data) (u0 w0 : List (List Rat)) (ru rw : Mat) (sqrtC : Rat) (stop : Option Stop) (n : Nat) :
+    Obj × Bool :=
+  let p0 : Params := { u := o.u.getD u0, w := o.w.getD w0 }
+  match fitMaxSize d o.D with
+  | none => ({ o with u := some p0.u, w := some p0.w, tolerance := stop.map (·.tol), reached := false }, false)
+  | some D =>
+    if stopOk stop then
+      let r := fitRun d o.u o.w u0 w0 ru rw stop n
+      let p := finish d o.u.isSome o.w.isSome (C (dims 2 D)) sqrtC r.p
+      ({ u := some p.u, w := some p.w, D := some D, tolerance := stop.map (·.tol), trained := true,
+         it := some r.it, reached := r.reached }, true)
+    else
+      let p := emStep d o.u.isSome o.w.isSome ru rw p0
+      ({ o with u := some p.u, w := some p.w, D := some D, tolerance := stop.map (·.tol), reached := false }, false)
+
+/-- the arguments of one call of `fit` (data, the draws the generator would deliver, the priors and `sqrt(C())` at the
+time of the call, the stopping arguments, `n_iter`) -/
+structure FitCall where
+  d : Data
+  u0 : List (List Rat)
+  w0 : List (List Rat)
+  ru : Mat
+  rw : Mat
+  sqrtC : Rat
+  stop : Option Stop
+  n : Nat
+
+def callFit (o : Obj) (c : FitCall) : Obj := (fitObj o c.d c.u0 c.w0 c.ru c.rw c.sqrtC c.stop c.n).1
+
+/-- a session: the calls of `fit` made on one object, in order (calls that raise included) -/
+def runSession (o : Obj) (cs : List FitCall) : Obj := cs.foldl callFit o
+
+/-- `obj.poisson_params(B)` for one column `e` of `B`: `None` = `ValueError` ("not initialized"); the answer is
+`poisson` of the CURRENT arrays and of `e` - nothing else of the object is read -/
+def poisObj (o : Obj) (e : List Nat) : Option Rat :=
+  match o.u, o.w with
+  | some u, some w => some (poisson u.length w.length (matOf u) (matOf w) e)
+  | _, _ => none
+
+/-- `obj._edge_sum(B)` for one column -/
+def edgeSumObj (o : Obj) (e : List Nat) : Option (List Rat) :=
+  match o.u, o.w with
+  | some u, some w => some ((List.range w.length).map (edgeSum u.length (matOf u) e))
+  | _, _ => none
 
 /-! ## arrays from the wire -/
 
